@@ -16,6 +16,7 @@ import (
 
 	"verif/internal/ev"
 	"verif/internal/opdrv"
+	"verif/internal/vstore"
 )
 
 // vstore names the flow of every token request it is asked to mint for
@@ -94,7 +95,12 @@ func execute(run *ev.Run, s *spec, router int, pl pool) {
 
 	w.Store.ResetJournal()
 	w.Store.SetJournal(true)
-	resp := send(w, router, rq)
+	if s.FaultAt > 0 {
+		w.Store.Arm(&vstore.FaultPlan{At: s.FaultAt, Kind: vstore.FaultKind(s.FaultKind)})
+	}
+	resp := send(s, w, router, rq)
+	faultFired := s.FaultAt > 0 && w.Store.Fired() > 0
+	w.Store.Arm(nil)
 	journal := w.Store.Journal()
 	w.Store.SetJournal(false)
 	w.Store.ResetJournal()
@@ -224,6 +230,10 @@ func execute(run *ev.Run, s *spec, router int, pl pool) {
 			return
 		}
 		run.Count("outcome", "mustRefuse:refused")
+		if faultFired {
+			run.Count("outcome", "mustRefuse:refused-under-storage-fault")
+			run.Observed("must-refuse-under-storage-fault:" + rn)
+		}
 		if primary == "post-disabled" {
 			run.Observed("post-disabled-refused:" + rn)
 		}
@@ -235,6 +245,12 @@ func execute(run *ev.Run, s *spec, router int, pl pool) {
 		if sampleKinds["refused:"+primary] {
 			run.SampleKind("refused:"+primary, witness)
 		}
+		return
+	}
+
+	if faultFired {
+		// nothing obliges the provider to refuse this request; what it answers under a storage fault is C10's business
+		run.Count("outcome", "open:under-storage-fault")
 		return
 	}
 
